@@ -11,6 +11,7 @@ from .core import (
     BOOL,
     BYTES,
     CLASSES,
+    H,
     INF,
     INT,
     NEG_INF,
@@ -1021,6 +1022,8 @@ def exec_loop(ip, s, env, f):
     if not isinstance(s, ast.While):
         return spec.exec_for(ip, s, env, f, ordinal)
     tag = f"{f.qualname}/loop{ordinal}"
+    # two-state loop invariants may refer to the state at loop entry
+    ctx.loop_entry = H(st, st.snapshot())
     for name, t in spec.inv(ip, env):
         ctx.oblige(f"{tag}:{name}:entry", t, "loop")
     # havoc what the loop may change
